@@ -202,6 +202,7 @@ func (v *StructSchema) validate(ctx *p.SchemaCtx) {
 		subCtx.ValPtr = destPtr
 		subCtx.Path.Push(&fieldKey)
 		subCtx.DType = schema.getType()
+		subCtx.Exit = false
 		subCtx.CanCatch = false
 		schema.validate(subCtx)
 		subCtx.Path.Pop()
